@@ -50,7 +50,7 @@ def run(tier):
     scs = rc.model_local_scenarios(gens)
     v.notes["gen_scenarios"] = len(scs)
     rc.run_scenarios(v, PID, wd, "gen", scs, chunk=400)
-    scs = rc.local_scenarios(r_, 400 if tier == "quick" else 12000)
+    scs = rc.local_scenarios(r_, 400 if tier == "quick" else 4000)
     lines, rejects = rc.run_scenarios(v, PID, wd, "tv", scs)
     modes = {}
     for ln in lines:
